@@ -18,12 +18,21 @@ QueueOk == {t \in Ids : QProj(trx'[t].q) # P.trx[t].q} = {}
 HopOk == {t \in Ids : trx'[t].fh # P.trx[t].fh} = {}
 Rest(s) == [f \in (DOMAIN s) \ {"run", "fh", "q", "drop", "muted"} |-> s[f]]
 RestOk == {t \in Ids : Rest(trx'[t]) # Rest(P.trx[t])} = {}
+\* the first state component on which code and specification disagree names the clause, so that
+\* the properties that depend on that component (routing: rx/tx; delivered values: ver, ta, att,
+\* nompwr, frssi, toa, ci) can claim the rejection too
+RestFields == (DOMAIN InitTrx) \ {"run", "fh", "q", "drop", "muted"}
+RestDiff == {f \in RestFields : \E t \in Ids : trx'[t][f] # P.trx[t][f]}
+RestTag == IF RestDiff = {} THEN "C05.effect" ELSE "C05.effect." \o (CHOOSE f \in RestDiff : TRUE)
 DropOk == {t \in Ids : trx'[t].drop # P.trx[t].drop \/ trx'[t].muted # P.trx[t].muted} = {}
 ProjOk == /\ Tag("C12.running-state", RunOk) /\ Tag("C12.clock-links", ClkOk)
           /\ Tag("C03.queue", QueueOk)
           /\ Tag(IF \E t \in Ids : trx[t].run /\ ~trx'[t].run THEN "C12.poweroff-forgets-hopping" ELSE "C05.effect.hopping", HopOk)
           /\ Tag("C18.drop-counter-and-mute", DropOk)
-          /\ Tag("C05.effect", RestOk)
+          /\ Tag(RestTag, RestOk)
+
+\* clock indications leave only from a clock tick (C09: exactly at frames divisible by the period)
+NoClckOut == {k \in 1..Len(Ev.outs) : Ev.outs[k].kind = "clck"} = {}
 
 ReplyOk(toks, r, raw) ==
   IF r.win = <<>> THEN raw = Response(toks, r.st, r.res)
@@ -38,6 +47,7 @@ TCmd ==
      ELSE LET toks == Tokens(Ev.raw) IN
           /\ Tag("harness.wellformed-numbers", AllInts(Tail(toks)))
           /\ Cmd(Ev.t, VerbOf(toks[1]), Ints(Tail(toks)))
+          /\ Tag("C09.indication-outside-tick", NoClckOut)
           /\ Tag("C05.exactly-one-reply", Len(Ev.outs) = 1 /\ Ev.exc = "")
           /\ Tag("C05.reply-to-sender", Ev.outs[1].kind = "ctrl" /\ Ev.outs[1].t = Ev.t /\ Ev.outs[1].port = Ev.rport)
           /\ Tag("C05.reply-octets", ReplyOk(toks, out'.rsp[1], Ev.outs[1].raw))
@@ -49,6 +59,7 @@ TData ==
   /\ IsEv("data")
   /\ Tag("C14.no-exception", Ev.exc = "")
   /\ Arrive(Ev.t, Ev.raw)
+  /\ Tag("C09.indication-outside-tick", NoClckOut)
   /\ Tag("C03.accepted-iff-running-and-version", Ev.acc = (out'.rsp = <<1>>))
   /\ Tag("C03.arrival-sends-nothing", Ev.outs = <<>>)
   /\ ProjOk
